@@ -18,7 +18,7 @@ def fair_event(c):
     K = c['K']
     k, name, idx = pymc.mk_kripke(K, c.get('naming', 'int'), rng=rng if c.get('shuf') is not None else None, S0=[0])
     kb = libfam.proj_kripke(k, idx, None)
-    F = [set(name(i) for i in Pset) for Pset in c['F']]
+    F = pymc.present_F(c['F'], name, rng if c.get('shuf') is not None else random.Random(c.get('tid', 0)))
     ev = {'tid': c['tid'], 'op': c['op'], 'n': K['n'], 'R': K['R'], 'L': K['L'], 'F': c['F']}
     if c['op'] == 'fs':
         def run():
